@@ -414,7 +414,14 @@ pub fn api_case(data: &[u8]) -> api::ApiCase {
                         2 => (r.unit() * 4.0 / fs as f64) as f32,
                         _ => wild_finite(&mut r).abs(),
                     }),
-                    2 | 3 => api::GlideCall::Process((r.unit() * 20.0 - 10.0) as f32),
+                    2 => api::GlideCall::Process((r.unit() * 20.0 - 10.0) as f32),
+                    3 => {
+                        if r.bool() {
+                            api::GlideCall::Process((r.unit() * 20.0 - 10.0) as f32)
+                        } else {
+                            api::GlideCall::SetTimeSamples { k: [1u8, 2, 2, 2, 3, 4, 8, 100][(r.u8() % 8) as usize], ulps: (r.u8() % 5) as i8 - 2 }
+                        }
+                    }
                     _ => api::GlideCall::ProcessN((r.unit() * 20.0 - 10.0) as f32, r.u16() % 500),
                 });
             }
